@@ -30,9 +30,9 @@ def nontrivial(c): return c.get("generator") or any(s["T"] >= 2 and s["hi"] - s[
 def splits(k, T):
     if T == 1: return [(k,)]
     return [r + (i,) for i in range(0, k // T + 1) for r in splits(k - i * T, T - 1)]
-def oracle(s):
+def oracle(s, incl=0):
     probs = [F(a, b) for a, b in s["probs"]]; fp = FPS[s["fp"]]; T = s["T"]; raw = {}
-    for k in range(s["lo"], s["hi"]):
+    for k in range(s["lo"], s["hi"] + incl):
         if s["kind"] == "delta" and k != s["target"]:
             key = (k,) + (0,) * (T - 1); raw[key] = raw.get(key, 0) * 0 + fp(k); continue
         ds = [d for d in splits(k, T) if all(x >= 0 for x in d)]
@@ -68,17 +68,28 @@ def check(c):
         if s["via_main"]:
             params[N_.JOINT_DEGREE_TYPE] = typ.value; obj = guarded("JointDegreeDistribution.load_joint_degree", JointDegreeDistribution.load_joint_degree, params)
         else: obj = guarded(f"{cls.__name__}.__init__", cls, params)
-        exp = oracle(s); got = obj.jdd; tag = f"(loader #{n + 1} of the sequence: {s})"
-        extra = [d for d in got if d not in exp and float(got[d]) != 0]; missing = [d for d in exp if d not in got]
-        if missing or extra:
-            ks = sorted({sum((t + 1) * x for t, x in enumerate(d)) for d in missing + extra})
-            raise Violation(f"{cls.__name__}.create_jdd.support_is_the_admissible_splits_of_the_range", f"overall degrees {ks}: missing {missing[:3]}, unexpected {extra[:3]} {tag}")
-        for d in exp:
-            if abs(float(got[d]) - float(exp[d])) > 1e-12 * max(1.0, float(exp[d])): 
-                k = sum((t + 1) * x for t, x in enumerate(d))
-                tot_got = sum(v for dd, v in got.items() if sum((t + 1) * x for t, x in enumerate(dd)) == k); tot_exp = sum(v for dd, v in exp.items() if sum((t + 1) * x for t, x in enumerate(dd)) == k)
-                clause = "mass_of_degree_k_proportional_to_fp" if abs(float(tot_got) - float(tot_exp)) > 1e-12 else "within_k_split_in_proportion_to_the_probability_product"
-                raise Violation(f"{cls.__name__}.create_jdd.{clause}", f"joint degree {d} (overall degree {k}): mass {got[d]} vs {exp[d]} {tag}")
+        got = obj.jdd; tag = f"(loader #{n + 1} of the sequence: {s})"
+        def compare(exp):
+            # a joint degree whose share is exactly 0 may be stored with mass 0 or not at all; nothing else may be missing or extra
+            extra = [d for d in got if d not in exp and float(got[d]) != 0]; missing = [d for d in exp if d not in got and exp[d] != 0]
+            if missing or extra:
+                ks = sorted({sum((t + 1) * x for t, x in enumerate(d)) for d in missing + extra})
+                raise Violation(f"{cls.__name__}.create_jdd.support_is_the_admissible_splits_of_the_range", f"overall degrees {ks}: missing {missing[:3]}, unexpected {extra[:3]} {tag}")
+            for d in exp:
+                gd = got.get(d, 0)
+                if abs(float(gd) - float(exp[d])) > 1e-12 * max(1.0, float(exp[d])):
+                    k = sum((t + 1) * x for t, x in enumerate(d))
+                    tot_got = sum(v for dd, v in got.items() if sum((t + 1) * x for t, x in enumerate(dd)) == k); tot_exp = sum(v for dd, v in exp.items() if sum((t + 1) * x for t, x in enumerate(dd)) == k)
+                    clause = "mass_of_degree_k_proportional_to_fp" if abs(float(tot_got) - float(tot_exp)) > 1e-12 else "within_k_split_in_proportion_to_the_probability_product"
+                    raise Violation(f"{cls.__name__}.create_jdd.{clause}", f"joint degree {d} (overall degree {k}): mass {gd} vs {exp[d]} {tag}")
+        # "for every k in the degree range": whether the upper bound itself belongs to the range is left open by the statement -- the law over lo..hi-1 (what the code does) and
+        # the law over lo..hi are both accepted
+        try: compare(oracle(s))
+        except Violation as v0:
+            try: alt = oracle(s, 1)
+            except ZeroDivisionError: raise v0
+            try: compare(alt)
+            except Violation: raise v0
         if abs(float(sum(got.values())) - 1) > 1e-9: raise Violation(f"{cls.__name__}.create_jdd.sums_to_one", f"{sum(got.values())} {tag}")
     return []
 if __name__ == "__main__": main(sys.modules[__name__])
